@@ -83,6 +83,11 @@ def c01(tier, rng):
         out.append(case("t%d" % n[0], pre + script, list(tags) + ["w%d" % wm], **meta))
         n[0] += 1
     cf, wf, pf = connect_fields(rng), will_fields(rng), publish_fields(rng)
+    quota_pre = "connect ; deliver %s ; run" % hx(M.connack(0, 0, [(33, 1)]))
+    out.append(case("quota0-others", quota_pre + " ; start 0 0 pub q=2 t=61 pl=41 ; poll 0 ; start 1 0 ping ; poll 1 ; start 2 0 unsub f=61 ; poll 2 ; start 3 0 sub f=61:0000 ; poll 3 ; "
+                    "start 4 0 pub q=0 t=61 pl=42 ; poll 4 ; deliver %s ; poll 0 ; poll 0 ; start 5 0 ping ; poll 5" % hx(M.pubrec(1)), ["quota0"]))
+    out.append(case("pings-outstanding", PRE + " ; clone 0 1 ; start 0 0 ping ; poll 0 ; start 1 1 ping ; poll 1 ; start 2 0 pub q=1 t=61 ; poll 2 ; start 3 0 ping ; poll 3 ; start 4 0 unsub f=61 ; poll 4 ; start 5 1 ping ; poll 5",
+                    ["pings-outstanding"]))
     # a will whose payload is empty is still a will; will user properties and CONNECT user properties in every call order
     for extra in ("", "wq=1", "wq=2 wr=1", "wr=1", "wdi=5 wq=1"):
         add(("connect wt=%s wp= %s" % (hx(b"w/t"), extra)).strip(), ["connect", "will", "empty-will-payload"])
@@ -354,6 +359,15 @@ def c02(tier, rng):
         add("connect am=6d ad=01 ; deliver " + hx(M.connack(0, 0, order)), ["connack", "auth-order"])
         add("connect am=6d ad=01 ; deliver " + hx(M.connack(0, 135, order)), ["connack", "auth-order"])
         add("connect am=6d ad=01 ; deliver %s ; auth r=24 am=6d ad=02 ; deliver %s" % (hx(M.auth(24, [(21, b"m")])), hx(M.connack(0, 0, order))), ["connack", "auth-order", "via-auth"])
+    for L in (520, 1100, 5000):
+        big = M.publish(b"t", bytes((i * 3) % 251 for i in range(L)), ps=[(11, 1)])
+        add(sub_prefix() + " ; start 9 0 ping ; poll 9 ; deliver %s ; deliver %s ; deliver %s ; pollstream 0 ; pollstream 0 ; poll 9"
+            % (hx(big), hx(M.publish(b"t", b"small", ps=[(11, 1)])), hx(M.pingresp())), ["tail2", "pingresp", "after-long"])
+    # every legal PUBREL form is taken for what it is: the exchange is over, the next PUBLISH under that identifier is a new message
+    for r, form in ((0, "auto"), (0, "short3"), (146, "short3"), (146, "long"), (0, "long")):
+        add(sub_prefix() + " ; deliver %s ; deliver %s ; deliver %s ; pollstream 0 ; pollstream 0 ; pollstream 0"
+            % (hx(M.publish(b"t", b"first", 2, 7, ps=[(11, 1)])), hx(M.pubrel(7, r, [(31, b"why")] if form == "long" else (), form)),
+               hx(M.publish(b"t", b"second", 2, 7, ps=[(11, 1)]))), ["pubrel", "reuse"])
     # the two-byte packets (PINGRESP, DISCONNECT / AUTH with remaining length 0) at the very end of a read that also brought
     # other packets: seen like any other
     for lead in (M.publish(b"t", b"x", ps=[(11, 1)]), M.puback(77), M.suback(77, [0]), M.publish(b"t", b"y" * 600, ps=[(11, 1)])):
@@ -457,7 +471,7 @@ def c03(tier, rng):
             add(stream, cuts, ["random"], tail, hold=rng.random() < 0.2)
     # a packet ending exactly at, just before or just after the 512 / 1024 / 1536 byte steps of the receive buffer, followed
     # by a PINGRESP (2 bytes) or a short PUBACK in the same transport segment
-    for total in list(range(505, 518)) + list(range(1017, 1030)) + list(range(1530, 1541)):
+    for total in list(range(495, 518)) + list(range(1000, 1030)) + list(range(1530, 1541)):
         first = M.publish(b"t", bytes((i * 5) % 251 for i in range(total - 9)), ps=[(11, 1)])
         assert len(first) == total, (len(first), total)
         for follow in (M.pingresp(), M.puback(77), M.pingresp() + M.publish(b"t", b"z", ps=[(11, 1)])):
@@ -493,6 +507,15 @@ def c03(tier, rng):
             stream = one * reps + M.pingresp()
             out.append(case("ownlimit-%d-%d" % (own, reps), pre_own + " ; deliver %s ; %s ; poll 9" % (hx(stream), " ; ".join(["pollstream 0"] * (reps + 1))),
                             ["ownlimit"], stream_len=len(stream), chunks=1))
+    # what arrives in the same read as the CONNACK (or straddles it) belongs to the connection like everything else
+    for opts in ("", "mps=2000", "mps=100000 rm=5"):
+        tail_ = M.suback(1, [2]) + M.publish(b"t", b"early bird", 1, 9, ps=[(11, 1)]) + M.pingresp()
+        ca = M.connack()
+        for cut in (len(ca), len(ca) + 3, 3):
+            whole = ca + M.publish(b"t", b"zero", 0, None)
+            out.append(case("with-connack-%s-%d" % (opts.replace(" ", "_").replace("=", "") or "plain", cut),
+                            ("connect %s" % opts).strip() + " ; deliver %s ; deliver %s ; run ; start 0 0 sub f=61:2000 ; poll 0 ; start 9 0 ping ; poll 9 ; deliver %s ; poll 0 ; tostream 0 ; pollstream 0 ; poll 9"
+                            % (hx(whole[:cut]), hx(whole[cut:]), hx(tail_)), ["with-connack"]))
     # the transport ends: never before its own end-of-stream
     for cause in ("eof", "rerr"):
         stream, _ = mk_stream([-1, 40])
@@ -607,6 +630,24 @@ def c04(tier, rng):
         out.append(case("zerowrite-connect-%d" % k, "werr0 %d ; connect ; deliver %s" % (k, hx(M.connack())), ["connecting", "zerowrite"]))
         out.append(case("zerowrite-run-%d" % k, PRE + " ; werr0 %d ; start 0 0 pub q=1 t=61 pl=41 ; poll 0 ; poll 0" % k, ["running", "zerowrite"]))
         out.append(case("zerowrite-ack-%d" % k, PRE + " ; werr0 %d ; deliver %s ; deliver %s" % (k, hx(M.publish(b"t", b"x", 1, 9)), hx(M.publish(b"t", b"y", 2, 10))), ["running", "zerowrite"]))
+    # run() called again on the same connection after it gave up on an undecodable packet: the bytes that follow are framed
+    # and served as ever (no panic, nothing left unread)
+    for bad in (M.publish(b"\xff\xfe", b"x"), M.packet(0x40, b"\x00\x00"), M.puback(1, 200), M.publish(b"t" * 700, b"x" * 30)[:-5] + b"\xff" * 5,
+                M.packet(0x30, M.binf(b"\xc0\x80" * 300) + b"\x00" + b"p" * 20)):
+        for follow in (M.pingresp(), M.publish(b"t", b"after", 1, 9) + M.pingresp()):
+            out.append(case("rerun-%s-%d" % (hx(bad[:3]), len(follow)), PRE + " ; start 0 0 ping ; poll 0 ; deliver %s ; run ; deliver %s ; poll 0 ; run ; deliver %s ; poll 0"
+                            % (hx(bad + follow[:1]), hx(follow[1:]), hx(M.pingresp())), ["running", "rerun"]))
+        out.append(case("reconnect-same-transport-%s" % hx(bad[:3]), "connect ; deliver %s ; connect ; deliver %s ; run ; start 0 0 ping ; poll 0 ; deliver %s ; poll 0"
+                        % (hx(bad), hx(M.connack()), hx(M.pingresp())), ["connecting", "rerun"]))
+    for hdr in (0x38, 0x39):
+        for pl_ in (b"\x01\x00", b"\x00\x01\x00", b"\x00\x07\x02\x0b\x01", b"\x12\x34\x00payload"):
+            pk = bytearray(M.publish(b"t", pl_))
+            pk[0] = hdr
+            out.append(case("dup-qos0-%02x-%s" % (hdr, hx(pl_)), phases["running"] + " ; deliver %s ; deliver d000 ; poll 0" % hx(bytes(pk)), ["running", "dup-qos0"]))
+            pk2 = bytearray(M.publish(b"a", pl_, ps=[(11, 1)]))
+            pk2[0] = hdr
+            out.append(case("dup-qos0-sub-%02x-%s" % (hdr, hx(pl_)), PRE + " ; start 0 0 sub f=61:2000 ; poll 0 ; deliver %s ; poll 0 ; tostream 0 ; deliver %s ; pollstream 0 ; pollstream 0"
+                            % (hx(M.suback(1, [2])), hx(bytes(pk2))), ["running", "dup-qos0"]))
     # over-long variable byte integers, in the length field and in a property
     for v in (b"\xff\xff\xff\xff\x7f", b"\x80\x80\x80\x80\x00", b"\xff\xff\xff\x7f", b"\x80\x80\x80\x80\x80"):
         add("running", b"\x40" + v, ["varint5"])
